@@ -125,6 +125,15 @@ CHECKS.update({
             TRUST_HTTP, '4.12'),
 })
 
+CHECKS.update({
+    'C15': ('exploration',
+            'conservation monitor at the HTTP boundary: raw-SQL dump of every table + hashed blob listing before and after each request; authorised request shapes replayed by every lesser role with self-harvested tokens; complete route x method x role sweep from the routing table discovered at run time; accepted-at-most-once checker over CSRF token histories',
+            'Every mutating operation in the shape the authorised role sends it x five roles, the whole url_map x five methods x lesser roles x '
+            'three encodings with harvested CSRF tokens and JWTs (enumerated completely across shards), and random CSRF histories; positive '
+            'controls show that the same requests do change state for the authorised role.',
+            TRUST_HTTP + ' The flask_login stand-in only affects how an authenticated session is recognised; lesser roles use the repository\'s own AnonymousUser.', '4.15'),
+})
+
 NOT_YET = {}
 
 
